@@ -1152,6 +1152,94 @@ example : (update2 (exf quadr) (exW quadr .two) (exP none)).1.der1[0]? =
       (ex_bounded _ quadr_bound) (by simp [names, exP]) rfl (by simp [exW]) (hin_ex _ _) (by norm_num [exW]) rfl
       0 (by simp [exW]) rfl ⟨0, 0, 0, none⟩ rfl 1 1 1 (fun t => ex_poly quadr t)).2
 
+/-- a constraint `[lo, hi]` on the caller's side -/
+private def cn (lo hi : ℝ) : Option (Interval ℝ) := some ⟨some lo, some hi, true, true⟩
+private def qc (lo hi : ℝ) : Param ℝ := ⟨0, 0, 0, cn lo hi⟩
+
+/-- `five_point_computes_central`, `five_point_stored_exact` (no boundedness hypothesis at all: the
+five-point scheme has no VERY_BIG test) on `poly5` with coefficients `1, 1, 1, 1, 0, 0` -/
+example : (update5 (exf (poly5 fun i => if i.val ≤ 3 then 1 else 0)) (exW (poly5 fun i => if i.val ≤ 3 then 1 else 0) .five) (exP none)).2 = none ∧
+    (update5 (exf (poly5 fun i => if i.val ≤ 3 then 1 else 0)) (exW (poly5 fun i => if i.val ≤ 3 then 1 else 0) .five) (exP none)).1.der1[0]?
+      = some (some (poly5' (fun i => if i.val ≤ 3 then 1 else 0) 0)) :=
+  ⟨(five_point_computes_central _ (exW _ .five) (exP none) (ex_own _ _) (ex_ok _ _) (ex_free _)
+      (by simp [names, exP]) rfl (by simp [exW]) (hin_ex _ _) rfl rfl).1,
+   (five_point_stored_exact _ (exW _ .five) (exP none) (ex_own _ _) (ex_ok _ _) (ex_free _)
+      (by simp [names, exP]) rfl (by simp [exW]) (hin_ex _ _) (by norm_num [exW]) rfl rfl
+      0 (by simp [exW]) rfl ⟨0, 0, 0, none⟩ rfl _ (fun t => ex_poly _ t)).2 (by simp)⟩
+
+/-- `three_point_one_sided_stored`: the parameter passed with `[0, 1]` (left probe refused) -/
+example : (update3 (exf quadr) (exW quadr .three) (exP (cn 0 1))).1.der2 = [some (2 * 1)] :=
+  (three_point_one_sided_stored (exf quadr) (exW quadr .three) (exP (cn 0 1)) 0 (ex_own _ _) (ex_ok _ _) (ex_freeFn _ _)
+    (ex_bounded _ quadr_bound) (by simp [names, exP]) rfl rfl rfl (by norm_num [exW]) ⟨0, 0, 0, none⟩ (qc 0 1) rfl rfl rfl rfl rfl
+    (by simp [qc, cn, exW, Param.violates, Interval.isCorrect, Scalar.geb, Scalar.leb])
+    (by simp [qc, cn, exW, Param.violates, Interval.isCorrect, Scalar.geb, Scalar.leb] <;> norm_num)
+    (by simp [qc, cn, exW, Param.violates, Interval.isCorrect, Scalar.geb, Scalar.leb] <;> norm_num)
+    1 1 1 (fun t => ex_poly quadr t)).2.1
+
+/-- `five_point_backward_stored`: passed with `[-1/8, 1/16]` -/
+example : (update5 (exf cubic) (exW cubic .five) (exP (cn (-1 / 8) (1 / 16)))).1.der2 =
+    [some ((2 * 1 + 6 * 1 * 0) - 6 * 1 * ((1 + |(0 : ℝ)|) * (1 / 16)))] :=
+  (five_point_backward_stored (exf cubic) (exW cubic .five) (exP (cn (-1 / 8) (1 / 16))) 0 (ex_own _ _) (ex_ok _ _) (ex_freeFn _ _)
+    (by simp [names, exP]) rfl rfl (by norm_num [exW]) ⟨0, 0, 0, none⟩ (qc (-1 / 8) (1 / 16)) rfl rfl rfl rfl rfl
+    (by simp [qc, cn, exW, Param.violates, Interval.isCorrect, Scalar.geb, Scalar.leb] <;> norm_num)
+    (by simp [qc, cn, exW, Param.violates, Interval.isCorrect, Scalar.geb, Scalar.leb] <;> norm_num)
+    (by simp [qc, cn, exW, Param.violates, Interval.isCorrect, Scalar.geb, Scalar.leb] <;> norm_num)
+    1 1 1 1 (fun t => ex_poly cubic t)).2.2.1
+
+/-- `five_point_forward_stored`: passed with `[-1/16, 1/8]` -/
+example : (update5 (exf cubic) (exW cubic .five) (exP (cn (-1 / 16) (1 / 8)))).1.der2 =
+    [some ((2 * 1 + 6 * 1 * 0) + 6 * 1 * ((1 + |(0 : ℝ)|) * (1 / 16)))] :=
+  (five_point_forward_stored (exf cubic) (exW cubic .five) (exP (cn (-1 / 16) (1 / 8))) 0 (ex_own _ _) (ex_ok _ _) (ex_freeFn _ _)
+    (by simp [names, exP]) rfl rfl (by norm_num [exW]) ⟨0, 0, 0, none⟩ (qc (-1 / 16) (1 / 8)) rfl rfl rfl rfl rfl
+    (by simp [qc, cn, exW, Param.violates, Interval.isCorrect, Scalar.geb, Scalar.leb] <;> norm_num)
+    (by simp [qc, cn, exW, Param.violates, Interval.isCorrect, Scalar.geb, Scalar.leb] <;> norm_num)
+    (by simp [qc, cn, exW, Param.violates, Interval.isCorrect, Scalar.geb, Scalar.leb] <;> norm_num)
+    1 1 1 1 (fun t => ex_poly cubic t)).2.2.1
+
+/-- `two_point_right_stored`: passed with `[0, 1]` -/
+example : (update2 (exf quadr) (exW quadr .two) (exP (cn 0 1))).1.der1 =
+    [some ((1 + 2 * 1 * 0) + 1 * ((1 + |(0 : ℝ)|) * (1 / 16)))] :=
+  (two_point_right_stored (exf quadr) (exW quadr .two) (exP (cn 0 1)) 0 (ex_own _ _) (ex_ok _ _) (ex_freeFn _ _)
+    (ex_bounded _ quadr_bound) (by simp [names, exP]) rfl rfl (by norm_num [exW]) ⟨0, 0, 0, none⟩ (qc 0 1) rfl rfl rfl rfl
+    (by simp [qc, cn, exW, Param.violates, Interval.isCorrect, Scalar.geb, Scalar.leb])
+    (by simp [qc, cn, exW, Param.violates, Interval.isCorrect, Scalar.geb, Scalar.leb] <;> norm_num)
+    1 1 1 (fun t => ex_poly quadr t)).2.2
+
+/-- `two_point_halved_stored`: passed with `[-3/64, 3/64]` -/
+example : (update2 (exf quadr) (exW quadr .two) (exP (cn (-3 / 64) (3 / 64)))).1.der1 =
+    [some ((1 + 2 * 1 * 0) - 1 * ((1 + |(0 : ℝ)|) * (1 / 16) / 2))] :=
+  (two_point_halved_stored (exf quadr) (exW quadr .two) (exP (cn (-3 / 64) (3 / 64))) 0 (ex_own _ _) (ex_ok _ _) (ex_freeFn _ _)
+    (ex_bounded _ quadr_bound) (by simp [names, exP]) rfl rfl (by norm_num [exW]) ⟨0, 0, 0, none⟩ (qc (-3 / 64) (3 / 64)) rfl rfl rfl rfl
+    (by simp [qc, cn, exW, Param.violates, Interval.isCorrect, Scalar.geb, Scalar.leb] <;> norm_num)
+    (by simp [qc, cn, exW, Param.violates, Interval.isCorrect, Scalar.geb, Scalar.leb] <;> norm_num)
+    (by simp [qc, cn, exW, Param.violates, Interval.isCorrect, Scalar.geb, Scalar.leb] <;> norm_num)
+    1 1 1 (fun t => ex_poly quadr t)).2.2
+
+/-- `three_point_halved_stored`: passed with `[-3/64, 3/64]`; `f''(0) = 2` exact on the cubic -/
+example : (update3 (exf cubic) (exW cubic .three) (exP (cn (-3 / 64) (3 / 64)))).1.der2 = [some (2 * 1 + 6 * 1 * 0)] :=
+  (three_point_halved_stored (exf cubic) (exW cubic .three) (exP (cn (-3 / 64) (3 / 64))) 0 (ex_own _ _) (ex_ok _ _) (ex_freeFn _ _)
+    (ex_bounded _ cubic_bound) (by simp [names, exP]) rfl rfl rfl (by norm_num [exW]) ⟨0, 0, 0, none⟩ (qc (-3 / 64) (3 / 64)) rfl rfl rfl rfl rfl
+    (by simp [qc, cn, exW, Param.violates, Interval.isCorrect, Scalar.geb, Scalar.leb] <;> norm_num)
+    (by simp [qc, cn, exW, Param.violates, Interval.isCorrect, Scalar.geb, Scalar.leb] <;> norm_num)
+    (by simp [qc, cn, exW, Param.violates, Interval.isCorrect, Scalar.geb, Scalar.leb] <;> norm_num)
+    (by simp [qc, cn, exW, Param.violates, Interval.isCorrect, Scalar.geb, Scalar.leb] <;> norm_num)
+    1 1 1 1 (fun t => ex_poly cubic t)).2.2.1
+
+/-- `three_point_cross_computes`, `cross_stored_exact` on `f(x, y) = x y + x`: `∂²f/∂x∂y = 1` stored -/
+example : (update3 exf2 exW2 exB2).2 = none ∧
+    get2 (update3 exf2 exW2 exB2).1.cross 0 1 =
+      some (some (biquadXY (fun i j => if i.val = 1 ∧ j.val ≤ 1 then 1 else 0) 0 0)) := by
+  have hin : ∀ v ∈ exW2.vars, has exB2 v = true → v ∈ names exW2.fn.params := by
+    intro v hv _; simp [exW2] at hv; rcases hv with rfl | rfl <;> simp [exW2, exB2, names]
+  refine ⟨(three_point_cross_computes exf2 exW2 exB2 ex2_own ex2_ok ex2_free ex2_bounded (by simp [names, exB2]) rfl rfl
+      (by simp [exW2]) hin (by norm_num [exW2]) rfl rfl).1, ?_⟩
+  exact cross_stored_exact exf2 exW2 exB2 ex2_own ex2_ok ex2_free ex2_bounded (by simp [names, exB2]) rfl rfl
+    (by simp [exW2]) hin (by norm_num [exW2]) rfl rfl 0 1 (by simp [exW2]) (by simp [exW2]) (by decide) rfl rfl
+    (by simp [get2, exW2]) ⟨0, 0, 0, none⟩ ⟨1, 0, 0, none⟩ rfl rfl _
+    (fun s t => by
+      show exf2 (values (upd1 (upd1 exB2 0 s) 1 t)) = _
+      rw [ex2_values]; simp [exf2, biquad]; ring)
+
 end instances
 
 end Bpp.C12
